@@ -2242,7 +2242,7 @@ Q(name="e2_migration_trigger_slice", props=["C15"], func=r"connection/mod\.rs:\d
   allowed_panics=r".", ignore_untranslatable=r"Transmute",
   functions=["Connection::process_payload (slice: the migration trigger after the frame loop)"], pre=lambda c: "true", post=mtg_post,
   bounds="the end of process_payload from an ARBITRARY state: `migrate(now, remote)` (followed by a CID change) runs if and only if the packet came from an address other than the current path's, carried a non-probing frame (`is_probing_packet` false) and has the highest packet number received so far in the Data space; the panic for a client reaching this point is outside the claim (e2_handle_event_remote_check shows clients drop such packets)",
-  replay=("conn_migration_trigger_native", lambda m: [dict(mode=0), dict(mode=1), dict(mode=2)]))
+  replay=("conn_migration_trigger_native", lambda m: [dict(mode=0), dict(mode=1), dict(mode=2), dict(mode=3)]))
 
 
 def prs_post(c, p):
